@@ -286,6 +286,39 @@ def upper_bound(conds, path, resolve=None):
     return best
 
 
+def lower_bound(conds, path, resolve=None):
+    """greatest lower bound on `path` implied by must-facts (None = unbounded)."""
+    best = None
+    for c in conds:
+        if c[0] == "switch":
+            continue
+        n, pol = c
+        if n.k != "BinaryOperator" or n.op not in CMP:
+            continue
+        op = n.op if pol else NEG[n.op]
+        for res in ((resolve,) if resolve is None else (resolve, None)):
+            l = linear(n.c[0], res)
+            r = linear(n.c[1], res)
+            if l is None or r is None:
+                continue
+            if l[0] == path and r[0] is None:
+                k = r[1] - l[1]
+                o = op
+            elif r[0] == path and l[0] is None:
+                k = l[1] - r[1]
+                o = SWAP[op]
+            else:
+                continue
+            lb = None
+            if o == ">":
+                lb = k + 1
+            elif o in (">=", "=="):
+                lb = k
+            if lb is not None and (best is None or lb > best):
+                best = lb
+    return best
+
+
 def single_defs(func):
     """locals assigned exactly once (initialiser or one assignment) whose
     address is never taken: name -> defining expression node."""
